@@ -198,8 +198,10 @@ func (w *world) abs(m *specqbft.SignedMessage, depth int) string {
 
 // forceNetFail (set by scripted attacks): the next timeout of the node finds the network down.
 type recNet struct {
-	msgs []*specqbft.SignedMessage
-	fail bool // the next publishes fail (network down)
+	msgs      []*specqbft.SignedMessage
+	fail      bool // the next publishes fail (network down)
+	failAfter bool // the next publishes go out and THEN report an error (a partial publish: p2p Broadcast returns at the
+	// first failing topic after earlier topics were published)
 }
 
 func (r *recNet) Broadcast(m *spectypes.SSVMessage) error {
@@ -211,6 +213,9 @@ func (r *recNet) Broadcast(m *spectypes.SSVMessage) error {
 		panic(err)
 	}
 	r.msgs = append(r.msgs, sm)
+	if r.failAfter {
+		return fmt.Errorf("injected publish failure after the message went out")
+	}
 	return nil
 }
 func (r *recNet) take() []*specqbft.SignedMessage { x := r.msgs; r.msgs = nil; return x }
